@@ -4,7 +4,7 @@ import json, os, subprocess
 root = os.path.dirname(os.path.dirname(os.path.abspath(__file__)))
 claims = json.load(open(os.path.join(root, "tools", "claims.json")))
 props = [json.loads(l)["id"] for l in open(os.path.join(root, "properties.jsonl"))]
-hook_commits = claims.get("hook_commits", [])
+hook_commits = subprocess.run("git -C /repo log --format=%h --grep='^verif hooks' --reverse", shell=True, capture_output=True, text=True).stdout.split()
 checks = []
 for pid in props:
     c = claims["claimed"].get(pid)
